@@ -1,6 +1,7 @@
 import Driver.Loop
 import IrohModel.Common.Hex
 import IrohModel.C24.Model
+import IrohModel.C24.WithPrune
 open IrohModel IrohModel.C24
 
 def parseAddr (s : String) : Option Addr := do
@@ -24,7 +25,54 @@ def parseCand (s : String) : Option Cand :=
     pure ⟨addr, rtt⟩
   | _ => none
 
+/-- `<addr>:<status>` of the path-set section of a `world` payload. -/
+def parsePathTok (s : String) : Option C23.Path :=
+  match s.splitOn ":" with
+  | [a, st] => do
+    let addr ← parseAddr a
+    let status ←
+      (if st = "o" then some C23.Status.open
+       else if st = "k" then some C23.Status.unknown
+       else if st = "u" then some C23.Status.unusable
+       else if st.startsWith "i" then (st.drop 1).toString.toNat?.map C23.Status.inactive
+       else none)
+    if addr.id ≥ 1000 then none else
+    pure ⟨WithPrune.remoteKey addr, addr.kind == .relay, status⟩
+  | _ => none
+
+def insertAsc (x : Nat) : List Nat → List Nat
+  | [] => [x]
+  | y :: ys => if x ≤ y then x :: y :: ys else y :: insertAsc x ys
+
+def hasDup : List Nat → Bool
+  | [] => false
+  | x :: xs => xs.contains x || hasDup xs
+
+def section? (s : String) : List String := if s.trimAscii.toString = "-" then [] else tokens s
+
+/-- `world cur=… | path set | candidates` -/
+def handleWorld (payload : String) : String :=
+  match payload.splitOn " | " with
+  | [c, ps, cs] =>
+    let cstr := ((c.drop 6).toString.trimAscii.toString)
+    if !cstr.startsWith "cur=" then "bad-input" else
+    let curS := (cstr.drop 4).toString
+    let cur? : Option (Option Addr) := if curS = "-" then some none else (parseAddr curS).map some
+    match cur?, (section? ps).mapM parsePathTok, (section? cs).mapM parseCand with
+    | some cur, some paths, some cands =>
+      if hasDup (paths.map (·.id)) then "bad-input" else
+      let w : WithPrune.World := ⟨paths, cands, cur⟩
+      let (selA, kept) := WithPrune.selectThenPrune WithPrune.remoteKey w
+      let (selB, _) := WithPrune.pruneThenSelect WithPrune.remoteKey w
+      let showSel (s : Option Addr) := match s with | none => "none" | some a => showAddr a
+      let keys := (kept.map (·.id)).foldr insertAsc []
+      let keptS := if keys.isEmpty then "-" else ",".intercalate (keys.map toString)
+      s!"selA={showSel selA} selB={showSel selB} kept={keptS}"
+    | _, _, _ => "bad-input"
+  | _ => "bad-input"
+
 def handleLine (payload : String) : String :=
+  if payload.startsWith "world " then handleWorld payload else
   match tokens payload with
   | [] => "bad-input"
   | c :: ps =>
